@@ -36,7 +36,13 @@
                     negated prefix, a bracketed value a version range), os (each stated field
                     equals the setting, case folded, negated by a leading exclamation mark),
                     property (with no property defined: only the negated forms hold).  When no
-                    profile of a POM is active that way, its activeByDefault profiles are. *)
+                    profile of a POM is active that way, its activeByDefault profiles are.
+   R10 empty value  a property written with no text (empty element, self-closing element, white
+                    space only) is DEFINED, with the empty string as its value: its placeholder is
+                    replaced by nothing, and it overrides an inherited definition like any other.
+                    Texts are trimmed when read; a CDATA section is text.  (Reading XML is outside
+                    this file: its input is the decoded record, where such a property is a pair
+                    with an empty second component.) *)
 From DepsDev Require Import Lib.Base Maven.Pom.
 
 Inductive sres (A : Type) : Type :=
@@ -64,7 +70,9 @@ Definition U_mgmt_dup : N := 3.     (* one dependencyManagement list declares an
 Definition U_import_type : N := 4.  (* import scope on an entry whose type is not pom *)
 Definition U_blank_id : N := 5.     (* entry without groupId or artifactId, or a partial parent element *)
 Definition U_no_version : N := 8.
-Definition U_bad_range : N := 9.    (* the jdk condition is not a well-formed version range *)   (* a dependency has no version after injection (Maven: error) *)
+Definition U_bad_range : N := 9.
+Definition U_empty_field : N := 10.  (* a managed entry whose written type interpolates to the empty string *)
+Definition U_null_vs_empty : N := 11. (* a written-but-empty classifier or scope would decide the outcome *)    (* the jdk condition is not a well-formed version range *)   (* a dependency has no version after injection (Maven: error) *)
 
 (* ---- R1 identity *)
 Definition ident := (bytes * bytes * bytes * bytes)%type.
@@ -304,7 +312,35 @@ Section Spec.
 
   (* The effective dependencies and the effective management of a project;
      fuel bounds the nesting of imports (a nesting deeper than the repository is a cycle). *)
-  Fixpoint build (fuel : nat) (is_root : bool) (root : project) : sres (list dependency * list dependency) :=
+  (* An element that is WRITTEN but whose text interpolates to the empty string (a property defined
+     with an empty value, R10) is not the same to the model builder as an element that is absent:
+     a dependency whose groupId, artifactId, version or type ends up empty is an error; an empty
+     classifier is an identity of its own, different from no classifier; an empty scope is not
+     filled from the managed entry.  The first is specified below.  The last two are accidents of
+     null versus empty in the implementation with no documented rule behind them: where they
+     would decide the outcome the specification makes no claim (U_null_vs_empty). *)
+  Definition written_empty (written resolved : bytes) : bool := negb (blank written) && blank resolved.
+
+  (* an entry after interpolation, with: classifier written but empty, scope written but empty *)
+  Definition entry := (dependency * (bool * bool))%type.
+  Definition e_dep (e : entry) : dependency := fst e.
+  Definition e_cl (e : entry) : bool := fst (snd e).
+  Definition e_sc (e : entry) : bool := snd (snd e).
+
+  (* two entries of one identity, one with the classifier written empty, one without classifier *)
+  Fixpoint mixed_classifier (l : list entry) : bool :=
+    match l with
+    | [] => false
+    | e :: l' => existsb (fun e' => declares (ident_of (e_dep e)) (e_dep e') && negb (Bool.eqb (e_cl e) (e_cl e'))) l'
+                 || mixed_classifier l'
+    end.
+
+  Definition flags_in (all : list entry) (d : dependency) : entry :=
+    (d, (existsb (fun e => declares (ident_of d) (e_dep e) && e_cl e) all, false)).
+
+  (* The effective dependencies and the effective management of a project;
+     fuel bounds the nesting of imports (a nesting deeper than the repository is a cycle). *)
+  Fixpoint build (fuel : nat) (is_root : bool) (root : project) : sres (list dependency * list entry) :=
     match fuel with
     | O => SErr
     | S f =>
@@ -329,33 +365,55 @@ Section Spec.
         let sel (of_ : project * list profile -> list dependency) :=
           select (flat_map of_ poms) (flat_map (fun pa => rev (of_ pa)) poms) in
         (* strict: every placeholder must resolve and no two entries may become equal; an imported
-           project's own dependencies are only looked at for a missing version *)
-        let finish (strict : bool) (l : list dependency) : sres (list dependency) :=
+           project's own dependencies are only looked at for what makes its model invalid.
+           is_deps: the dependencies proper (version and type are validated), not the managed ones *)
+        let finish (strict is_deps : bool) (l : list dependency) : sres (list entry) :=
           if existsb (fun d => blank (d_group d) || blank (d_artifact d)) l then SUnsupported U_blank_id
           else
-            let r := map (resolve_dep t) l in
-            let l' := map (fun x => with_type (fst x)) r in
-            if strict && negb (forallb snd r) then SUnsupported U_unresolved
-            else if strict && has_dup (map ident_of l') then SUnsupported U_collision
-            else SOk l' in
-        deps <~ finish is_root (sel deps_of) ;;
-        mgmt <~ finish true (sel mgmt_of) ;;
+            let r := map (fun d => (d, resolve_dep t d)) l in
+            let res_of (x : dependency * (dependency * bool)) := fst (snd x) in
+            if existsb (fun x => blank (d_group (res_of x)) || blank (d_artifact (res_of x))) r then SErr
+            else if is_deps && existsb (fun x => written_empty (d_version (fst x)) (d_version (res_of x))
+                                                 || written_empty (d_type (fst x)) (d_type (res_of x))) r then SErr
+            else if negb is_deps && existsb (fun x => written_empty (d_type (fst x)) (d_type (res_of x))) r
+                 then SUnsupported U_empty_field
+            else if strict && negb (forallb (fun x => snd (snd x)) r) then SUnsupported U_unresolved
+            else
+              let l' := map (fun x => (with_type (res_of x),
+                                       (written_empty (d_classifier (fst x)) (d_classifier (res_of x)),
+                                        written_empty (d_scope (fst x)) (d_scope (res_of x))))) r in
+              if strict && has_dup (map (fun e => ident_of (e_dep e)) l') then SUnsupported U_collision
+              else SOk l' in
+        deps <~ finish is_root true (sel deps_of) ;;
+        mgmt <~ finish true false (sel mgmt_of) ;;
         (* R7 *)
-        if existsb (fun d => is_import d && negb (bytes_eqb (d_type d) s_pom)) mgmt then SUnsupported U_import_type
+        if existsb (fun e => is_import (e_dep e) && negb (bytes_eqb (d_type (e_dep e)) s_pom)) mgmt
+        then SUnsupported U_import_type
         else
-          let own := filter (fun d => negb (is_import d)) mgmt in
-          imported <~ smap (fun d => match locate (d_group d, d_artifact d, d_version d) with
+          let own := filter (fun e => negb (is_import (e_dep e))) mgmt in
+          imported <~ smap (fun e => let d := e_dep e in
+                                     match locate (d_group d, d_artifact d, d_version d) with
                                      | None => SErr
                                      | Some b => r <~ build f false b ;; SOk (snd r)
-                                     end) (filter is_import mgmt) ;;
-          let final := first_wins (own ++ concat imported) in
+                                     end) (filter (fun e => is_import (e_dep e)) mgmt) ;;
+          let candidates := own ++ concat imported in
+          if mixed_classifier (deps ++ candidates) then SUnsupported U_null_vs_empty
+          else
+          let final := first_wins (map e_dep candidates) in
           (* R8; Maven rejects a model in which a dependency is left without a version *)
-          let injected := map (inject final) deps in
+          if existsb (fun e => e_sc e && match find (declares (ident_of (e_dep e))) final with
+                                         | Some m => negb (blank (d_scope m))
+                                         | None => false
+                                         end) deps
+          then SUnsupported U_null_vs_empty
+          else
+          let injected := map (fun e => inject final (e_dep e)) deps in
           if existsb (fun d => blank (d_version d)) injected
           then (if is_root then SUnsupported U_no_version else SErr)
-          else SOk (injected, final)
+          else SOk (injected, map (flags_in candidates) final)
     end.
 
   Definition effective (root : project) : sres (list dependency * list dependency) :=
-    build (S (length repo)) true root.
+    r <~ build (S (length repo)) true root ;;
+    SOk (fst r, map e_dep (snd r)).
 End Spec.
